@@ -83,6 +83,13 @@ def build_array(case):
             d = da.blockwise(_rowsum, "i", d, "ij", concatenate=True, dtype=d.dtype)
             r = r.sum(axis=1)
             used_contraction = True
+        elif k == "delayed_arg":
+            # a constant (non-indexed) dask argument: becomes a TaskRef dependency of every block
+            from dask import delayed
+
+            ind = "ijklmnop"[: r.ndim]
+            d = da.blockwise(_addc, ind, d, ind, delayed(step["v"]), None, dtype=d.dtype)
+            r = r + step["v"]
         elif k == "ones":
             o = np.ones(r.shape, dtype=r.dtype)
             od = da.ones(r.shape, chunks=d.chunks, dtype=r.dtype)
@@ -90,6 +97,10 @@ def build_array(case):
         else:
             raise ValueError(k)
     return d, r, used_contraction
+
+
+def _addc(b, c):
+    return b + c
 
 
 def _rowsum(b):
@@ -160,8 +171,9 @@ def check_cull(case):
     for k, a, b in zip(keys, vals, ref):
         ensure(np.array_equal(np.asarray(a), np.asarray(b), equal_nan=True) if np.asarray(a).dtype.kind in "fc" else np.array_equal(np.asarray(a), np.asarray(b)), f"block {k} differs after cull", "cull-value")
     # whole array still equals NumPy (guards the reference itself)
-    with np.errstate(all="ignore"):
-        A.same_array(d.compute(scheduler="sync"), r, what="array")
+    with np.errstate(all="ignore"), impl("compute whole array"):
+        whole = d.compute(scheduler="sync")
+    A.same_array(whole, r, what="array")
     # Blockwise._cull_dependencies vs materialised tasks
     from dask._task_spec import convert_legacy_graph
 
@@ -192,7 +204,8 @@ def check_fuse(case):
         opt = optimize_blockwise(hlg, keys=keys)
     with impl("fuse_roots"):
         opt2 = fuse_roots(opt, keys=keys)
-    ref = dask.get(dict(hlg), keys)
+    with impl("evaluate unfused graph"):
+        ref = dask.get(dict(hlg), keys)
     for label, g in (("optimize_blockwise", opt), ("fuse_roots", opt2)):
         with impl("evaluate " + label):
             vals = dask.get(dict(g), keys)
@@ -278,7 +291,7 @@ def steps_strategy(draw, ndim):
     n = draw(st.integers(1, 5))
     steps = []
     for _ in range(n):
-        k = draw(st.sampled_from(["add_scalar", "transpose", "map_blocks", "add_other", "broadcast", "broadcast1", "newaxis", "tensordot", "blockwise_concat", "ones"]))
+        k = draw(st.sampled_from(["add_scalar", "transpose", "map_blocks", "add_other", "broadcast", "broadcast1", "newaxis", "tensordot", "blockwise_concat", "ones", "delayed_arg"]))
         steps.append({"op": k, "v": draw(st.integers(1, 3)), "c": draw(st.integers(1, 3)), "cuts": draw(st.lists(st.integers(1, 4), min_size=1, max_size=3))})
     return steps
 
